@@ -15,7 +15,7 @@ KNOWN = os.path.join(VERIF, 'known-findings.txt')
 
 # ------------------------------------------------------------------ snapshots
 def load_snapshot(prefix, exe):
-    regs = []; roots = {}; allocs = []
+    regs = []; roots = {}; allocs = []; arena = (0, 0)
     binf = open(prefix + '.bin', 'rb').read()
     for ln in open(prefix + '.meta'):
         w = ln.split()
@@ -25,8 +25,10 @@ def load_snapshot(prefix, exe):
         elif w[0] == 'root': roots[w[1]] = int(w[2], 16)
         elif w[0] == 'alloc': allocs.append((int(w[1], 16), int(w[2], 16)))
         elif w[0] == 'val': roots[w[1]] = w[2]
+        elif w[0] == 'arena': arena = (int(w[1], 16), int(w[2], 16))
     syms = _nm(exe)
-    s = Snapshot(regs, syms); s.allocs = sorted(allocs)
+    s = Snapshot(regs, syms); s.allocs = sorted(allocs); s.arena = arena
+    if allocs and arena == (0, 0): raise RuntimeError('snapshot %s has an allocation table but no arena line' % prefix)
     return s, roots
 
 _NM = {}
